@@ -29,7 +29,7 @@ type c15PIScen struct {
 	Depth         int64  `json:"depth"`
 	AuthQ         string `json:"auth_q"`    // ok | err
 	Room          string `json:"room"`      // can_invite | cannot_invite | inviter_absent
-	SendInvite    string `json:"send_invite"` // ok | err
+	SendInvite    string `json:"send_invite"` // ok (the event sent, signed by the invited server) | err | nil | same_unsigned | other | same_id_other_content
 }
 
 type c15PIStateQ struct {
@@ -74,19 +74,30 @@ type c15InviteClient struct {
 	lpk    ed25519.PublicKey
 	ver    gmsl.RoomVersion
 	names  []string
+	other  gmsl.PDU
+	sent   gmsl.PDU
+	inviteeDomain string
 }
 
+// the names among the given ones under which the event carries a valid signature made with the local key
 func c15Signers(ver gmsl.RoomVersion, ev gmsl.PDU, pub ed25519.PublicKey, names []string) []string {
 	var out []string
+	seen := map[string]bool{}
 	for _, n := range names {
+		if seen[n] {
+			continue
+		}
+		seen[n] = true
 		checked := c15CheckedEvent(ver, ev.JSON(), n, pub)
 		o, _ := c15Decode([]byte(checked))
 		sigs, _ := o["signatures"].(c15Obj)
 		mine, _ := sigs[n].(c15Obj)
-		if v, _ := mine[string(c15KeyID)].(string); v == "<VALID-SIGNATURE>" {
+		switch v, _ := mine[string(c15KeyID)].(string); v {
+		case "<VALID-SIGNATURE>":
 			out = append(out, n)
-		} else {
-			out = append(out, "NOT-SIGNED-AS:"+n)
+		case "<MISSING-SIGNATURE>":
+		default:
+			out = append(out, "BAD-SIGNATURE-AS:"+n)
 		}
 	}
 	return out
@@ -98,10 +109,36 @@ func (f *c15InviteClient) SendInvite(ctx context.Context, event gmsl.PDU, stripp
 		sk = *event.StateKey()
 	}
 	f.log.add(append([]string{"SI", sk}, c15Signers(f.ver, event, f.lpk, f.names)...)...)
-	if f.mode == "err" {
+	f.sent = event
+	switch f.mode {
+	case "err":
 		return nil, errC15Querier
+	case "nil":
+		return nil, nil
+	case "other":
+		// another event altogether: power levels "from" the inviter, signed by the invited server only
+		return f.other, nil
 	}
-	return f.answer, nil
+	// a copy of the event sent (Sign writes into its receiver)
+	cp, err := gmsl.MustGetRoomVersion(event.Version()).NewEventFromTrustedJSON(append([]byte{}, event.JSON()...), false)
+	if err != nil {
+		return nil, err
+	}
+	if f.mode == "same_id_other_content" {
+		// keeps the event_id member (a plain field in room versions 1 and 2) but says something else
+		o, _ := c15Decode(cp.JSON())
+		o["content"] = c15Obj{"membership": "invite", "displayname": "words the inviter never wrote"}
+		raw, _ := gmsl.CanonicalJSON(c15JSON(o))
+		if cp2, perr := gmsl.MustGetRoomVersion(event.Version()).NewEventFromTrustedJSON(raw, false); perr == nil {
+			cp = cp2
+		}
+	}
+	if f.mode != "same_unsigned" {
+		_, isk := c15Key(f.inviteeDomain)
+		cp = cp.Sign(f.inviteeDomain, c15KeyID, isk)
+	}
+	f.answer = cp
+	return cp, nil
 }
 
 func (f *c15InviteClient) SendInviteV3(ctx context.Context, event gmsl.ProtoEvent, userID spec.UserID, roomVersion gmsl.RoomVersion, strippedState []gmsl.InviteStrippedState) (gmsl.PDU, error) {
@@ -195,15 +232,15 @@ func c15PerformInvite(args [][]byte) ([][]byte, []byte) {
 		}
 		generated = l
 	}
-	_, rsk := c15Key("remote")
-	answer := c15Build(bv, gmsl.ProtoEvent{SenderID: inviter, RoomID: c15ReqRoom, Type: spec.MRoomMember, StateKey: &invitee, Depth: 99,
-		Content: spec.RawJSON(`{"membership":"invite","displayname":"the invited server's answer"}`)}, "local", "local").Sign("remote", c15KeyID, rsk)
-	fc := &c15InviteClient{log: log, mode: s.SendInvite, answer: answer, lpk: lpk, ver: bv, names: []string{"local", s.InviteeDomain}}
+	_, osk := c15Key(s.InviteeDomain)
+	otherEv := c15Build(bv, gmsl.ProtoEvent{SenderID: inviter, RoomID: c15ReqRoom, Type: spec.MRoomPowerLevels, StateKey: &empty, Depth: 99,
+		Content: c15JSON(c15Obj{"users": c15Obj{inviter: 100, invitee: 100}})}, "local", "local").Sign(s.InviteeDomain, c15KeyID, osk)
+	fc := &c15InviteClient{log: log, mode: s.SendInvite, lpk: lpk, ver: bv, names: []string{"local", s.InviteeDomain}, other: otherEv, inviteeDomain: s.InviteeDomain}
 
 	// ----- the record (independent of the call) -----
 	cfg := c15Obj{"version": s.Ver, "target_local": s.TargetLocal, "room": c15ReqRoom, "invitee": invitee, "inviter_domain": "local",
 		"invitee_domain": s.InviteeDomain, "given_state": givenJSON, "generated_state": generated, "set_unsigned_ok": true,
-		"member_q": c15MemberCfg(s.MemberQ), "build_ok": true, "provider_ok": s.AuthQ != "err", "send_ok": s.SendInvite != "err"}
+		"member_q": c15MemberCfg(s.MemberQ), "build_ok": true, "provider_ok": s.AuthQ != "err"}
 	switch s.SenderIDQ {
 	case "err":
 		cfg["sender_id"] = "err"
@@ -309,6 +346,38 @@ func c15PerformInvite(args [][]byte) ([][]byte, []byte) {
 	if sq.seen != nil {
 		cfg["allowed_ok"] = gmsl.Allowed(sq.seen, provider, uq) == nil
 	}
+	// what the invited server answered, judged here without the library's comparison: the very event
+	// that was sent (every member but signatures / unsigned equal), and signed under its name?
+	switch s.SendInvite {
+	case "err", "nil":
+		cfg["send"] = s.SendInvite
+	default:
+		cfg["send"] = "other"
+		var ans gmsl.PDU = fc.answer
+		if s.SendInvite == "other" {
+			ans = fc.other
+		}
+		if fc.sent != nil && ans != nil {
+			a, aerr := c15Decode(fc.sent.JSON())
+			b, berr := c15Decode(ans.JSON())
+			if aerr == nil && berr == nil {
+				for _, o := range []c15Obj{a, b} {
+					delete(o, "signatures")
+					delete(o, "unsigned")
+				}
+				if string(c15JSON(a)) == string(c15JSON(b)) && fc.sent.EventID() == ans.EventID() {
+					cfg["send"] = "same_unsigned"
+					if full, derr := c15Decode(ans.JSON()); derr == nil {
+						if sigs, ok := full["signatures"].(c15Obj); ok {
+							if m, ok := sigs[s.InviteeDomain].(c15Obj); ok && len(m) > 0 {
+								cfg["send"] = "same_signed"
+							}
+						}
+					}
+				}
+			}
+		}
+	}
 
 	class := c15Class(herr)
 	if strings.HasPrefix(class, "other:") {
@@ -319,8 +388,10 @@ func c15PerformInvite(args [][]byte) ([][]byte, []byte) {
 		switch {
 		case res == nil:
 			out += "\nNIL-EVENT"
-		case !s.TargetLocal && res == answer:
+		case !s.TargetLocal && fc.answer != nil && res == fc.answer:
 			out += "\nremote_response"
+		case !s.TargetLocal && res == fc.other:
+			out += "\nANOTHER-EVENT-THAN-THE-INVITE"
 		default:
 			sk := "<nil>"
 			if res.StateKey() != nil {
@@ -365,6 +436,15 @@ func genC15PerformInvite(c *Ctx) {
 		{"good", func(s *c15PIScen) {}},
 		{"remote invitee", func(s *c15PIScen) { s.TargetLocal = false; s.InviteeDomain = "remote" }},
 		{"remote invitee, send fails", func(s *c15PIScen) { s.TargetLocal = false; s.InviteeDomain = "remote"; s.SendInvite = "err" }},
+		{"remote invitee answers without an event", func(s *c15PIScen) { s.TargetLocal = false; s.InviteeDomain = "remote"; s.SendInvite = "nil" }},
+		{"remote invitee echoes the invite unsigned", func(s *c15PIScen) { s.TargetLocal = false; s.InviteeDomain = "remote"; s.SendInvite = "same_unsigned" }},
+		{"remote invitee answers with a power-levels event", func(s *c15PIScen) { s.TargetLocal = false; s.InviteeDomain = "remote"; s.SendInvite = "other" }},
+		{"remote invitee answers with the same event ID and other content", func(s *c15PIScen) {
+			s.TargetLocal = false
+			s.InviteeDomain = "remote"
+			s.SendInvite = "same_id_other_content"
+		}},
+		{"invitee of a third server answers with a power-levels event", func(s *c15PIScen) { s.TargetLocal = false; s.InviteeDomain = "other"; s.SendInvite = "other" }},
 		{"invitee of another server treated as local", func(s *c15PIScen) { s.InviteeDomain = "other" }},
 		{"local invitee treated as remote", func(s *c15PIScen) { s.TargetLocal = false }},
 		{"no given state", func(s *c15PIScen) { s.Given = 0 }},
